@@ -33,6 +33,7 @@ def replay_hist(tag, rec):
         last_text = {}
         solves = []       # (status, values)
         nsolve = 0
+        current_x = None  # the point the back end returned at the last solve of the current run
         for c in calls:
             if c == 'solve':
                 nsolve += 1
@@ -46,6 +47,7 @@ def replay_hist(tag, rec):
                     except BaseException as e:  # noqa
                         cl.add('C18', 'solve_no_exception', False, 'solve #%d raised %s: %s' % (nsolve, type(e).__name__, e))
                         return cl.out, info
+                current_x = r.events[-1].get('x') if r.events else None
                 if not o.get('bf'):
                     vals = [abs(e['opt']) if e.get('opt') is not None else (abs(e['objval']) if e.get('objval') is not None else None)
                             for e in r.events]
@@ -73,6 +75,10 @@ def replay_hist(tag, rec):
                     pm = p.get('matching')
                     cl.add('C18', 'resolve_valid_matching', pm is not None and tuple(pm) in fin,
                            '%s() after solve #%d prints matching %s, not among the specified optima' % (c, nsolve, pm))
+                    # what is shown is the outcome of the MOST RECENT solve, not of an earlier one
+                    if current_x is not None and pm is not None:
+                        cl.add('C18', 'getter_shows_current_solve', list(pm) == list(current_x),
+                               '%s() after solve #%d prints matching %s, the back end returned %s at that solve' % (c, nsolve, pm, current_x))
             if c == 'debug' and isinstance(t, str) and not o.get('bf') and rec['status'] == 'Optimal':
                 d = restext.parse_debug(t)
                 # 0/1 rows must describe a matching among the specified optima
@@ -82,6 +88,9 @@ def replay_hist(tag, rec):
                     ones = [j for j, v in enumerate(row) if v]
                     m.append(rec['inst']['prefs'][s_i][ones[0]] if len(ones) == 1 else (0 if not ones else -1))
                 cl.add('C18', 'debug_rows_are_the_matching', tuple(m) in fin, 'get_debug rows %s -> %s not among the specified optima' % (rows, m))
+                if current_x is not None:
+                    cl.add('C18', 'getter_shows_current_solve', list(m) == list(current_x),
+                           'get_debug() after solve #%d shows %s, the back end returned %s at that solve' % (nsolve, m, current_x))
                 # growth: with -pc a project is shown closed only if nobody is assigned to it (projects of capacity 0 excepted)
                 if o['pc'] and d['closures'] is not None:
                     bad = [j + 1 for j, c in enumerate(d['closures'][:rec['inst']['np']])
